@@ -52,6 +52,8 @@ class PubSub:
             O = H.new_ao("O", st_o, start=False)
             O.subscribe(Event(signal="P"), queue_type=kind)
             O.start_at(st_o)
+        elif p["prior"] == "other-object-at-the-same-time":
+            O = H.new_ao("O", st_o)         # started, subscribes from another thread while S subscribes
         s.settle()
         if p.get("window") == "all":
             s.open_window()
@@ -59,6 +61,13 @@ class PubSub:
             other_kind = "lifo" if (kind or "fifo") == "fifo" else "fifo"
             S.subscribe(Event(signal="P"), queue_type=other_kind)
         # --- the subscription
+        racer = None
+        if p["prior"] == "other-object-at-the-same-time":
+            s.settle()
+            if not s.window:
+                s.open_window()
+            racer = sched.CThread(target=lambda: O.subscribe(Event(signal="P"), queue_type=kind), name="racer")
+            racer.start()
         if p["sub"] == "before-start":
             S.subscribe(Event(signal="P"), queue_type=kind)
             S.start_at(st_s)
@@ -160,6 +169,11 @@ def params(tier):
     # with the window open from the start the subscription itself races: then "took effect before" only holds for
     # subscriptions made before start_at (queued ahead of everything) - keep those
     extra = [p for p in extra if p["sub"] == "before-start"]
+    # two objects make the first subscription to the signal at the same time (one from another thread)
+    for sub in ("after-start", "in-handler", "before-start"):
+        for kind in ("fifo", "lifo"):
+            extra.append({"spied_s": True, "spied_p": True, "sub": sub, "pub": "outside", "prior": "other-object-at-the-same-time",
+                          "kind": kind, "bound": 1 if q else 2})
     if not q:
         sel += [dict(p, bound=2, window="publish") for p in ps if p["kind"] == "lifo" and p["spied_s"] and p["spied_p"]
                 and p["sub"] in ("after-start", "in-handler") and p["pub"] in ("outside", "in-handler") and p["prior"] == "other-object"]
